@@ -12,6 +12,7 @@ Core only.
 -/
 import Biogo.Go.Bytes
 import Biogo.Go.Bufio
+import Biogo.Go.BytesFeat
 
 namespace Biogo.Spec.Bufio
 open Biogo.Go.Bytes
@@ -65,5 +66,14 @@ def lineOf (size : Nat) (fin : Err) (early : Bool) (st : Bytes) : Line × Bytes 
     else if line.getLast? = some 10 then
       (⟨line.take (line.length - (if line.length > 1 ∧ line[line.length - 2]? = some 13 then 2 else 1)), false, none⟩, st')
     else (⟨line, false, none⟩, st')
+
+/-- What a loop of `ReadBytes('\n')` calls returns, up to and including the first error: every
+    element of `Biogo.BytesFeat.lines bs` (the lines with their terminators), the error `fin`
+    coming with an unterminated last line, or with no data after an input that ends in LF (or is
+    empty).  The BED and GFF reader models consume `lines bs`: the data of the calls they go on
+    to process (`err == nil`, or `io.EOF` with `len(line) > 0`). -/
+def readBytesCalls (fin : Err) (bs : Bytes) : List (Bytes × Option Err) :=
+  (Biogo.BytesFeat.lines bs).map (fun l => (l, if l.getLast? = some 10 then none else some fin))
+    ++ (if bs.getLast? = some 10 ∨ bs = [] then [([], some fin)] else [])
 
 end Biogo.Spec.Bufio
